@@ -83,6 +83,11 @@ pub fn dn_values() -> Vec<(String, DnSpec)> {
         ("CN ia5 ending in a line break".into(), one(Cn, Ia5, "ab\r\n")),
         ("O printable ending in a space + CN printable starting with a space".into(), DnSpec(vec![(O, Printable, "Org ".into()), (Cn, Printable, " cn".into())])),
         ("custom oids with arcs 2^32, 2^63 and 2^64-1".into(), DnSpec(vec![(Custom(vec![1, 3, 4294967296, 1]), Utf8, "a".into()), (Custom(vec![2, 9223372036854775808, 5]), Utf8, "b".into()), (Custom(vec![2, 999, 18446744073709551615]), Printable, "c".into())])),
+        // (appended) attributes whose value has no characters (outside the profile's SIZE (1..MAX), but what a caller
+        // passing an unset text builds): the name is still a name with those attributes, not the empty name
+        ("nc:CN with an empty value".into(), one(Cn, Utf8, "")),
+        ("nc:O and CN both with empty values, different string types".into(), DnSpec(vec![(O, Printable, "".into()), (Cn, Ia5, "".into())])),
+        ("nc:CN with an empty value after O".into(), DnSpec(vec![(O, Utf8, "Org".into()), (Cn, Utf8, "".into())])),
     ]
 }
 
@@ -164,6 +169,11 @@ pub fn nc_values() -> Vec<(String, NcSpec)> {
         ("one text permitted as rfc822 and as dns".into(), NcSpec { permitted: vec![SubtreeSpec::Email("example.com".into()), SubtreeSpec::Dns("example.com".into())], excluded: vec![] }),
         ("one text excluded as dns and as rfc822 + a directoryName".into(), NcSpec { permitted: vec![], excluded: vec![SubtreeSpec::Dns("example.com".into()), SubtreeSpec::Email("example.com".into()), SubtreeSpec::Dir(DnSpec(vec![(DnTypeSpec::O, StrKind::Utf8, "example.com".into())]))] }),
         ("permitted v4 with a mask that is not a prefix (255.0.255.0) + excluded v6 likewise".into(), NcSpec { permitted: vec![SubtreeSpec::Ip(CidrSpec { addr: vec![10, 1, 2, 0], prefix: 24, ctor: CidrCtor::RawHoles })], excluded: vec![SubtreeSpec::Ip(CidrSpec { addr: ipv6_1(), prefix: 64, ctor: CidrCtor::RawHoles })] }),
+        // (appended) texts an IA5String cannot hold, in either list and either form, alone and after a good entry: refused, never written
+        ("uc:permitted dns with a non-ASCII letter".into(), p(SubtreeSpec::Dns("ex\u{e4}mple.com".into()))),
+        ("uc:excluded dns with a non-ASCII letter".into(), x(SubtreeSpec::Dns("ex\u{e4}mple.com".into()))),
+        ("uc:excluded rfc822 with a non-ASCII letter".into(), x(SubtreeSpec::Email("\u{fc}ser@example.com".into()))),
+        ("uc:good permitted dns, excluded rfc822 and dns outside IA5 after good ones".into(), NcSpec { permitted: vec![SubtreeSpec::Dns("example.com".into())], excluded: vec![SubtreeSpec::Email("example.com".into()), SubtreeSpec::Email("b\u{fc}ro.example".into()), SubtreeSpec::Dns("ok.example".into()), SubtreeSpec::Dns("\u{3b1}.example".into())] }),
     ]
 }
 
